@@ -29,7 +29,7 @@ use varpulis_cluster::raft::state_machine::{apply_command, CoordinatorState};
 use varpulis_cluster::raft::store::{MemStore, SharedCoordinatorState};
 use varpulis_cluster::raft::{ClusterCommand, NodeId, RaftNode, TypeConfig};
 
-type RaftT = openraft::Raft<TypeConfig>;
+pub type RaftT = openraft::Raft<TypeConfig>;
 
 #[derive(Default)]
 struct RouterInner {
@@ -260,6 +260,24 @@ async fn start<M: Mk>(mk: &M, router: &Router, id: NodeId, restart: bool, purge:
     let raft = openraft::Raft::new(id, config(purge), NetFactory { router: router.clone(), from: id }, log, sm).await.expect("Raft::new");
     router.0.lock().unwrap().nodes.insert(id, raft.clone());
     Node { raft, mirror }
+}
+
+/// A single-node cluster on the in-memory store: always its own leader (C38).
+pub async fn start_single() -> (RaftT, SharedCoordinatorState) {
+    let router = Router::default();
+    let (store, shared) = MemStore::with_shared_state();
+    let (log, sm) = Adaptor::new(store);
+    let raft = openraft::Raft::new(1, config(false), NetFactory { router: router.clone(), from: 1 }, log, sm).await.expect("Raft::new");
+    let members: BTreeMap<NodeId, RaftNode> = [(1u64, RaftNode { addr: "mem://1".into() })].into_iter().collect();
+    raft.initialize(members).await.expect("initialize");
+    for _ in 0..400 {
+        if raft.metrics().borrow().current_leader == Some(1) {
+            break;
+        }
+        tokio::time::sleep(Duration::from_millis(25)).await;
+    }
+    router.0.lock().unwrap().nodes.insert(1, raft.clone());
+    (raft, shared)
 }
 
 fn digest(j: &J) -> String {
